@@ -15,3 +15,4 @@ INVARIANT SharedAgreed
 INVARIANT MutualExclusion
 INVARIANT NoDeadlock
 INVARIANT Inv
+INVARIANT OnceInv
